@@ -245,7 +245,12 @@ func (m *MonC16) AfterBlock(w *World, b *BlockCtx) {
 			for _, pfx := range []string{"stake", "update", "waitlist"} {
 				got.Add(got, flatDelta(b, fmt.Sprintf("%s/%s/%s/%s", pfx, moveTo, owner, coin)))
 			}
-			if got.Cmp(old) < 0 && b.Cur.candByID(moveTo) != nil {
+			need := old
+			if hasEvidence {
+				// a move maturing in a punishment block is cut by 5% before it is delivered (like a release)
+				need = cutFloor(old, frozenCount(b.Prev)[k])
+			}
+			if got.Cmp(need) < 0 && b.Cur.candByID(moveTo) != nil {
 				w.Report("C16", "schedule", "move-not-delivered", fmt.Sprintf("height %d: move of %s coin %s by %s matured but candidate %s only gained %s", b.Height, old, coin, owner, moveTo, got), b.Height)
 				return
 			}
